@@ -5,7 +5,7 @@
 //!        `Forest::from_program(commit).string_serialize()` — conversion under MaxSharing, the
 //!        Namer's names, the pointer walk, the three sections, every spelling, the type printer —
 //!        compared with the real text after dropping comment lines and collapsing white space;
-//!   `parse <text hex> T:… C:…`   → `ok <root cmr> <nodes>` | `err`: the model's lexer + parser of the
+//!   `parse <text hex> T:… C:…`   → `ok <root cmr> <nodes>` | `no`: the model's lexer + parser of the
 //!        rendered grammar + name resolution + type check, on rendered texts and on mutations of
 //!        them that stay inside the flat grammar;
 //!   `lex <text hex>`             → `ok` | `lexerr`: the model's lexer on arbitrary strings;
@@ -30,7 +30,7 @@ use std::collections::{BTreeSet, HashMap, HashSet};
 use std::sync::Arc;
 use std::time::{Duration, Instant};
 
-pub const RULE: &str = "committed programs from the type-directed plan generator (all node kinds, hole-only disconnects, hidden roots, words up to 2048 bits, jets, shared nodes and repeated equal sub-expressions) rendered and reparsed; source texts generated from plans (inline and named sub-expressions, duplicated sub-expressions, #{expr} and literal roots, holes, annotations, aliases, comments); arbitrary strings; non-trivial = at least 5 nodes / 5 statements / 16 bytes; distinct by plan or text";
+pub const RULE: &str = "committed programs from the type-directed plan generator (all node kinds, hole-only disconnects, hidden roots, words up to 4096 bits, jets, shared node objects and repeated equal sub-expressions; sub-expressions that contain a witness or disconnect have one parent, as the library requires at commitment time — a shared witness OBJECT has no text form) rendered and reparsed; source texts generated from plans (inline and named sub-expressions, duplicated sub-expressions, #{expr} and literal roots, holes, annotations, aliases, comments); arbitrary strings; non-trivial = at least 5 nodes / 5 statements / 16 bytes; distinct by plan or text";
 
 // ------------------------------------------------------------------------------------------ helpers
 
@@ -235,6 +235,58 @@ fn hole_only(plan: &Plan) -> Plan {
     q.compacted()
 }
 
+/// copy every sub-expression that contains a witness or a disconnect once per parent (the
+/// commit-time domain: such sub-expressions are unique); `None` when that makes the plan too large
+fn unshare_unique(plan: &Plan) -> Option<Plan> {
+    let n = plan.nodes.len();
+    let mut unique = vec![false; n];
+    for i in 0..n {
+        unique[i] = matches!(plan.nodes[i], PNode::Witness | PNode::Disconnect(..)) || plan.nodes[i].children().iter().any(|c| unique[*c]);
+    }
+    fn copy(plan: &Plan, unique: &[bool], i: usize, memo: &mut HashMap<usize, usize>, out: &mut Vec<PNode>) -> Option<usize> {
+        if !unique[i] {
+            if let Some(j) = memo.get(&i) {
+                return Some(*j);
+            }
+        }
+        if out.len() > 200 {
+            return None;
+        }
+        let mut c = |k: usize, memo: &mut HashMap<usize, usize>, out: &mut Vec<PNode>| copy(plan, unique, k, memo, out);
+        let node = match &plan.nodes[i] {
+            PNode::InjL(a) => PNode::InjL(c(*a, memo, out)?),
+            PNode::InjR(a) => PNode::InjR(c(*a, memo, out)?),
+            PNode::Take(a) => PNode::Take(c(*a, memo, out)?),
+            PNode::Drop(a) => PNode::Drop(c(*a, memo, out)?),
+            PNode::Comp(a, b) => {
+                let x = c(*a, memo, out)?;
+                PNode::Comp(x, c(*b, memo, out)?)
+            }
+            PNode::Case(a, b) => {
+                let x = c(*a, memo, out)?;
+                PNode::Case(x, c(*b, memo, out)?)
+            }
+            PNode::Pair(a, b) => {
+                let x = c(*a, memo, out)?;
+                PNode::Pair(x, c(*b, memo, out)?)
+            }
+            PNode::AssertL(a, h) => PNode::AssertL(c(*a, memo, out)?, *h),
+            PNode::AssertR(h, b) => PNode::AssertR(*h, c(*b, memo, out)?),
+            PNode::Disconnect(a, _) => PNode::Disconnect(c(*a, memo, out)?, None),
+            nd => nd.clone(),
+        };
+        out.push(node);
+        let j = out.len() - 1;
+        if !unique[i] {
+            memo.insert(i, j);
+        }
+        Some(j)
+    }
+    let mut out = Vec::new();
+    copy(plan, &unique, plan.root(), &mut HashMap::new(), &mut out)?;
+    Some(Plan { nodes: out })
+}
+
 /// `comp (pair <plan> <extra>) unit` for a closed `extra : 1 → X`
 fn with_extra(plan: &Plan, extra: Vec<PNode>) -> Plan {
     let mut nodes = plan.nodes.clone();
@@ -287,7 +339,29 @@ fn fail_extra(r: &mut Rng) -> Vec<PNode> {
     vec![PNode::Unit, PNode::InjL(0), PNode::Unit, PNode::Pair(1, 2), PNode::Unit, PNode::Fail(e), PNode::Case(4, 5), PNode::Comp(3, 6)]
 }
 
+/// at commitment time the library treats sub-expressions that contain a witness or a disconnect
+/// as unique: a node OBJECT of that kind with two parents has no text form at all
+/// (`WitnessDisconnectRepeated`) and is outside the property's domain (as for C01)
+fn commit_time_ok(plan: &Plan) -> bool {
+    let n = plan.nodes.len();
+    let mut unique = vec![false; n];
+    for i in 0..n {
+        unique[i] = matches!(plan.nodes[i], PNode::Witness | PNode::Disconnect(..)) || plan.nodes[i].children().iter().any(|c| unique[*c]);
+    }
+    let mut indeg = vec![0usize; n];
+    for i in plan.reachable() {
+        for c in plan.nodes[i].children() {
+            indeg[c] += 1;
+        }
+    }
+    (0..n).all(|i| !(unique[i] && indeg[i] > 1))
+}
+
 fn program_case(ctx: &mut Ctx, plan: &Plan, program: bool, tag: &str) {
+    if !commit_time_ok(plan) {
+        ctx.count("outside-domain:shared-witness-object");
+        return;
+    }
     let line = format!("render {} {}{}", if program { "P" } else { "N" }, plan.text(), progs::jet_types(plan));
     let commit = match catch(|| gen::commit_of_plan(plan, None, program)) {
         Ok(Ok(c)) => c,
@@ -335,9 +409,6 @@ fn program_case(ctx: &mut Ctx, plan: &Plan, program: bool, tag: &str) {
             if round.nodes < n_plan {
                 ctx.count("reach:equal-identity-merged");
             }
-            if round.nodes > n_plan {
-                ctx.count("reach:witness-ancestors-unshared");
-            }
             let mut parents = vec![0usize; plan.nodes.len()];
             for n in &plan.nodes {
                 for c in n.children() {
@@ -380,10 +451,10 @@ fn parse_op(ctx: &mut Ctx, text: &str, jets: &str, kind: &str) {
             ctx.fail("panic-parse", &format!("parse {}{}", hex_of(text), jets), &p);
             return;
         }
-        Ok(Err(_)) => "err".to_string(),
+        Ok(Err(_)) => "no".to_string(),
         Ok(Ok(f)) => {
             if f.roots().len() != 1 || !f.roots().contains_key("main") {
-                "multi-root".to_string()
+                "no".to_string()
             } else {
                 let m = &f.roots()["main"];
                 format!("ok {} {}", m.cmr(), m.as_ref().post_order_iter::<InternalSharing>().count())
@@ -519,7 +590,11 @@ fn programs(ctx: &mut Ctx) {
             let b = gen::gen_t(&mut ctx.rng, 2);
             gen::gen_plan_pinned(&mut ctx.rng, cfg, &a, &b, 1 + (it % 3) as usize)
         };
-        let mut plan = hole_only(&base);
+        let holes = hole_only(&base);
+        if !commit_time_ok(&holes) {
+            ctx.count("generated:witness-object-with-two-parents-copied");
+        }
+        let Some(mut plan) = unshare_unique(&holes) else { continue };
         if plan.nodes.len() > 90 {
             continue;
         }
@@ -569,42 +644,58 @@ fn finding_probes(ctx: &mut Ctx) {
 
 // ------------------------------------------------------------------------------------------ types
 
-fn type_ops(ctx: &mut Ctx) {
-    let mut cases: Vec<(T, usize)> = Vec::new(); // (type, nesting of parentheses in its printed form)
-    for n in 0..=12u32 {
-        cases.push((T::word(n), 0));
-        cases.push((T::sum(T::One, T::word(n)), 0));
-        cases.push((T::prod(T::word(n), T::One), 0));
-        cases.push((T::sum(T::prod(T::word(n), T::word(0)), T::sum(T::One, T::sum(T::One, T::word(n)))), 1));
+/// the depth the type parser records for the printed form: words, `1` and `2` are atoms
+fn syn_depth(t: &T) -> usize {
+    if t.text().starts_with('w') || *t == T::One {
+        return 1;
     }
-    // option chains, combs around the former display limit (64) and around the nesting limit (1000)
+    match t {
+        T::One => 1,
+        T::Sum(a, b) if **a == T::One => 1 + syn_depth(b),
+        T::Sum(a, b) | T::Prod(a, b) => 1 + syn_depth(a).max(syn_depth(b)),
+    }
+}
+
+fn type_ops(ctx: &mut Ctx) {
+    let mut cases: Vec<T> = Vec::new();
+    for n in 0..=12u32 {
+        cases.push(T::word(n));
+        cases.push(T::sum(T::One, T::word(n)));
+        cases.push(T::prod(T::word(n), T::One));
+        cases.push(T::sum(T::prod(T::word(n), T::word(0)), T::sum(T::One, T::sum(T::One, T::word(n)))));
+    }
+    // option chains and combs around the former display limit (64) and around the nesting limit (1000)
     for k in [1usize, 2, 5, 30, 63, 64, 65, 70, 200, 998, 999, 1000, 1001, 1002, 1500] {
         let mut t = T::One;
         for _ in 0..k {
             t = T::sum(T::One, t);
         }
-        cases.push((t, 0));
+        cases.push(t);
         let mut t = T::One;
         for _ in 0..k {
             t = T::prod(t, T::word(0));
         }
-        cases.push((t, k - 1));
+        cases.push(t);
         let mut t = T::word(1);
         for _ in 0..k {
             t = T::sum(T::word(3), t);
         }
-        cases.push((t, k - 1));
+        cases.push(t);
     }
     // more than 10000 nodes (the former length limit)
     let mut t = T::word(9);
     for _ in 0..6 {
         t = T::prod(t, T::word(9));
     }
-    cases.push((t, 5));
+    cases.push(t);
     for d in 0..ctx.scale(300, 3000) {
-        cases.push((gen::gen_t(&mut ctx.rng, 1 + (d % 7) as usize), 0));
+        cases.push(gen::gen_t(&mut ctx.rng, 1 + (d % 7) as usize));
     }
-    for (t, nesting) in cases {
+    for t in cases {
+        let depth = {
+            // iterative enough: the deepest case has 1500 levels
+            syn_depth(&t)
+        };
         let line = format!("ty {}", t.text());
         let f = t.fin();
         let printed = format!("{}", f).replace('×', "*");
@@ -624,10 +715,13 @@ fn type_ops(ctx: &mut Ctx) {
         ctx.count("reach:type-printed");
         if back == "back" {
             ctx.count("reach:type-parsed-back");
-        } else if nesting >= 1000 && back == "noparse" {
-            // the printed form nests more parentheses than MAX_NESTING_DEPTH admits (reported, see
-            // tools/meta/C17.json): the model's parser says the same
-            ctx.count("outcome:type-nested-over-the-parser-limit");
+            if depth > 1000 {
+                ctx.fail("type-over-limit-accepted", &line, "a type deeper than MAX_NESTING_DEPTH was accepted");
+            }
+        } else if depth > 1000 && back == "noparse" {
+            // deeper than MAX_NESTING_DEPTH: refused by the parser's limit (see tools/meta/C17.json);
+            // the model's parser says the same
+            ctx.count("outcome:type-deeper-than-the-parser-limit");
         } else {
             let class = if printed.contains("...") {
                 "type-display-truncated"
@@ -874,7 +968,7 @@ fn source_of_plan(r: &mut Rng, plan: &Plan, menu: &[(String, [u8; 32])], namer_n
         let k = r.below(lines.len() as u64) as usize;
         let name = lines[k].split(' ').next().unwrap().to_string();
         if name != "main" {
-            let alias = format!("{name}_alias");
+            let alias = format!("al.{name}");
             let body = lines[k].splitn(2, " := ").nth(1).unwrap().to_string();
             lines[k] = format!("{alias} := {body}");
             lines.push(format!("{name} := {alias}"));
@@ -1271,36 +1365,43 @@ fn arbitrary(ctx: &mut Ctx, seeds: &[String]) {
             ctx.count(&format!("reach:nesting-{n}"));
         }
     }
-    // … and 10^5 deep in child processes (a stack overflow aborts the process), run concurrently.
-    // The lexer computes the position of every token by a scan from the start of the input, so the
-    // time is quadratic in the length: the long shapes get fewer levels in the quick tier.
-    let mut jobs: Vec<(&'static str, usize)> = Vec::new();
-    for shape in SHAPES {
-        let long = matches!(*shape, "comp" | "type-product-nest" | "hash-brace" | "statements");
-        let n = match (long, ctx.quick()) {
-            (false, _) => 100_000,
-            (true, true) => 20_000,
-            (true, false) => 60_000,
-        };
-        jobs.push((*shape, n));
-    }
+}
+
+type ChildResult = (&'static str, usize, Option<(bool, bool, String)>, f64);
+
+/// 10^5 levels in child processes (a stack overflow aborts the process), started at the beginning
+/// of the run and collected at its end.  The lexer computes the position of every token by a scan
+/// from the start of the input, so the time is quadratic in the length: the long shapes get fewer
+/// levels.
+fn start_children(ctx: &Ctx) -> Vec<std::thread::JoinHandle<ChildResult>> {
+    let mut hs = Vec::new();
     let limit = Duration::from_secs(if ctx.quick() { 150 } else { 900 });
-    let out_dir = ctx.out_dir.clone();
-    let results: Vec<(&'static str, usize, Option<(bool, bool, String)>, f64)> = std::thread::scope(|sc| {
-        let hs: Vec<_> = jobs
-            .iter()
-            .map(|(shape, n)| {
-                let out_dir = out_dir.clone();
-                sc.spawn(move || {
-                    let t0 = Instant::now();
-                    let r = child(&out_dir, shape, *n, limit);
-                    (*shape, *n, r, t0.elapsed().as_secs_f64())
-                })
-            })
-            .collect();
-        hs.into_iter().map(|h| h.join().unwrap()).collect()
-    });
-    for (shape, n, r, secs) in results {
+    for shape in SHAPES {
+        // quick tier: texts of at most about 100 KB, except the two inputs that once overflowed the
+        // stack, which are kept as they were found
+        let (q, t): (usize, usize) = match *shape {
+            "parens" | "type-parens" => (50_000, 100_000),
+            "take" => (20_000, 100_000),
+            "type-option" | "type-sum-chain" => (100_000, 100_000),
+            "comp" => (10_000, 60_000),
+            "type-product-nest" => (16_000, 60_000),
+            "hash-brace" => (6_000, 40_000),
+            _ => (5_000, 30_000),
+        };
+        let n = if ctx.quick() { q } else { t };
+        let out_dir = ctx.out_dir.clone();
+        hs.push(std::thread::spawn(move || {
+            let t0 = Instant::now();
+            let r = child(&out_dir, shape, n, limit);
+            (*shape, n, r, t0.elapsed().as_secs_f64())
+        }));
+    }
+    hs
+}
+
+fn collect_children(ctx: &mut Ctx, hs: Vec<std::thread::JoinHandle<ChildResult>>) {
+    for h in hs {
+        let Ok((shape, n, r, secs)) = h.join() else { continue };
         let case = format!("child:{shape}:{n}");
         match r {
             None => ctx.count("skipped:child-spawn-failed"),
@@ -1319,6 +1420,7 @@ fn arbitrary(ctx: &mut Ctx, seeds: &[String]) {
 // ------------------------------------------------------------------------------------------ run / replay
 
 pub fn run(ctx: &mut Ctx) {
+    let children = start_children(ctx);
     type_ops(ctx);
     programs(ctx);
     sources(ctx);
@@ -1351,6 +1453,7 @@ pub fn run(ctx: &mut Ctx) {
             source_case(ctx, &stmts.join("\n"), "namer-style-names");
         }
     }
+    collect_children(ctx, children);
 }
 
 pub fn replay(ctx: &mut Ctx, case: &str) {
